@@ -33,6 +33,7 @@ def run(ctx):
     # a default-argument function; small libraries that always carry a class
     callcheck.run_engine(ctx, "c", [None], 16 if quick else 300, ["c++"], with_overloads=True, nfunc=(1, 2), with_class=False)
     callcheck.run_engine(ctx, "c", [None], 12 if quick else 200, ["c++"], with_class=True, with_overloads=False, nfunc=(0, 2))
+    callcheck.run_template_family(ctx, "c", 4 if quick else 50)
     names = upstream.target_lists()["c"]
     for name, res in zip(names, core.pool_map(_up_job, names)):
         ctx.case(label="upstream-testc")
